@@ -1,10 +1,12 @@
 // Command worker executes simulated worlds for one property: a contiguous range of run
 // indices (one world at a time; the random source is process-global), a single replay from
 // a tape, or an in-process minimisation. It prints a JSON summary to VERIF_OUT.
+//go:debug randseednop=0
 package main
 
 import (
 	"encoding/json"
+	mrand "math/rand"
 	"fmt"
 	"os"
 	"runtime"
@@ -67,7 +69,9 @@ func one(info *scen.Info, prop, tier string, run int64, ch *simrt.Chooser, trace
 				res.Harness = fmt.Sprintf("scenario panic on root goroutine: %v\n%s", r, buf)
 			}
 		}()
-		stream = simrand.NewStream(ch.U64("world-rand"))
+		ws := ch.U64("world-rand")
+		mrand.Seed(int64(ws)) // math/rand's global source (go:debug randseednop=0): library fallbacks stay replayable
+		stream = simrand.NewStream(ws)
 		simrand.InstallGlobal(stream)
 		info.Run(ctx)
 	})
